@@ -26,6 +26,9 @@ type refReceiver struct {
 	// ReqLinks: also request hard-link members (announced with a regular mode:
 	// their id is a valid request and yields the file\'s bytes)
 	ReqLinks bool
+	// MaxReq > 0 limits the number of requests of the scripts that are sent
+	// after the listing (huge views).
+	MaxReq int
 
 	mu        sync.Mutex
 	cond      *sync.Cond
@@ -198,6 +201,24 @@ func (rr *refReceiver) run(ctx context.Context, s fsutil.Stream) error {
 			core.Shuffle(rr.R, ids)
 		case "none":
 			ids = nil
+		}
+		if rr.MaxReq > 0 && len(ids) > rr.MaxReq {
+			// huge views: a sample of the ids, the largest one always
+			top := ids[0]
+			for _, id := range ids {
+				if id > top {
+					top = id
+				}
+			}
+			core.Shuffle(rr.R, ids)
+			ids = ids[:rr.MaxReq-1]
+			has := false
+			for _, id := range ids {
+				has = has || id == top
+			}
+			if !has {
+				ids = append(ids, top)
+			}
 		}
 		for k, id := range ids {
 			if err := rr.request(s, id); err != nil {
